@@ -42,6 +42,7 @@ META = dict(
 )
 
 RTOL = 1e-6
+ATOL_TOTALS = 1e-13  # mol/dm3
 GROSS = 1e-3  # violations are keyed separately as marginal (1e-6 < rel. error <= 1e-3) and gross (> 1e-3)
 SOLID_ABSENT = 1e-9
 H2O = 55.5
@@ -143,7 +144,9 @@ def judge(names, idx, K, init, x):
         row = np.asarray(row, dtype=float)
         # magnitude of the terms summed at either state (species formed from the solvent can exceed their initial amount by decades)
         t0, t1, mag = float(row @ init), float(row @ x), float(np.abs(row) @ np.maximum(np.abs(init), np.abs(x)))
-        rel = abs(t1 - t0) / mag if mag > 0 else (0.0 if t1 == t0 else float("inf"))
+        # (absolute floor: the solver's convergence tolerance is absolute, 1e-8 in residual units; a total of a few nM is
+        # returned to ~1e-14 M, which is 1e-6 of the requested tolerance but can exceed 1e-6 of the total itself)
+        rel = max(0.0, abs(t1 - t0) - ATOL_TOTALS) / mag if mag > 0 else (0.0 if t1 == t0 else float("inf"))
         mags["cons"] = max(mags["cons"], rel)
         if rel > RTOL:
             kinds.add("totals" if rel > GROSS else "totals(<1e-3)")
